@@ -296,13 +296,16 @@ def seq_repeat(a, n):
     ln = const_of(z3.Length(base))
     if ln != 1:
         raise Unsupported('sequence repetition of a non-unit sequence by a symbolic count')
-    r = fresh('rep', IntSeq)
-    j = fresh('j')
     elem = z3.simplify(base[0])
+    r = REP(elem, n)
+    j = fresh('j')
     facts = [z3.Length(r) == z3.If(n > 0, n, 0),
              z3.ForAll([j], z3.Implies(z3.And(0 <= j, j < z3.Length(r)), r[j] == elem))]
     REP_FACTS.append((r, facts))
     return SeqV(r, a.kind)
+
+
+REP = z3.Function('REP', z3.IntSort(), z3.IntSort(), IntSeq)       # REP(e, n): n copies of e (empty for n <= 0)
 
 
 def as_seq(v):
